@@ -79,17 +79,18 @@ def check_c18(tier, replay=None):
     if replay:
         return _simple_replay('C18', EmitJudge, replay)
     rep = Report('C18', tier)
-    invs = ['EscapeFormatIdentity', 'Verbatim', 'Contained', 'ManifestFidelity']
+    invs = ['EscapeFormatIdentity', 'Verbatim', 'Contained', 'ManifestFidelity',
+            'WrapKeepsText', 'WrapKeepsWords', 'WrapPrefixed', 'WrapWidth', 'WrapGreedy']
     mo = 3 if tier == 'quick' else 4
-    jobs = [('paths', 0, 1, 1), ('manifest', 0, 1, 3)] + [('emit', s, 14, mo) for s in range(14)]
+    jobs = [('paths', 0, 1, 1), ('manifest', 0, 1, 3), ('wrap', 0, 1, 4)] + [('emit', s, 14, mo) for s in range(14)]
     res = run_shards('StoneEmit',
                      lambda j: dict(spec='Spec', constants={'Shard': j[1], 'NShards': j[2], 'EmitVectors': True, 'MaxOps': j[3],
                                                             'Mode': '"%s"' % j[0]},
                                     invariants=invs, constraints=['Emit', 'InShard']),
                      jobs, 'emitcheck.EmitJudge', {}, tlc_kwargs={'timeout': 6000})
-    for mode in ('paths', 'manifest', 'emit'):
+    for mode in ('paths', 'manifest', 'wrap', 'emit'):
         agg = merge([r for r, j in zip(res, jobs) if j[0] == mode])
-        rep.add_tlc('StoneEmit/' + mode, agg, {'Mode': mode, 'MaxOps': {'paths': 1, 'manifest': 3, 'emit': mo}[mode]})
+        rep.add_tlc('StoneEmit/' + mode, agg, {'Mode': mode, 'MaxOps': {'paths': 1, 'manifest': 3, 'wrap': 4, 'emit': mo}[mode]})
         rep.add_judged(agg)
     # every built-in backend: manifest run versus real run on the example spec set
     from backendruns import manifest_vs_real
@@ -101,7 +102,8 @@ def check_c18(tier, replay=None):
                                   'parent directory compared before/after; every emit script of <= %d operations over 30 operations (emit / '
                                   'emit_raw of 13 texts with braces, format-like sequences, backslash, non-ASCII; indent and block contexts; '
                                   'named and positional placeholders; generate_multiline_list of 0-3 items compact or not) against the '
-                                  'reference pretty-printer; all open/copy/swift-write scripts of <= 3 operations in real and manifest mode; '
+                                  'reference pretty-printer; emit_wrapped_text of 7 word sequences (long, hyphenated, braces) x prefix x '
+                                  'initial/subsequent prefix x width 6/10 x break_long_words x break_on_hyphens under 0-2 indent/block contexts; all open/copy/swift-write scripts of <= 3 operations in real and manifest mode; '
                                   'every built-in backend in real and manifest mode' % mo)
     rep.assumptions = ['TLC 1.8; harness/emitcheck.py (rendering of characters and path segments); os.walk snapshots of the sandbox directory']
     return rep.finish()
